@@ -126,7 +126,11 @@ class TimeBoundedPopScore(PopScorer):
             return
         else:
             start_timestamp = self.config.cutoff.timestamp()
-            item_ids = log["item_id"][log["timestamp"] > start_timestamp]
+            timestamps = log["timestamp"]
+            if timestamps.dtype.kind == "M":
+                # date-time typed timestamps cannot be compared with a number
+                start_timestamp = pd.Timestamp(start_timestamp, unit="s", tz=timestamps.dt.tz)
+            item_ids = log["item_id"][timestamps > start_timestamp]
             counts = item_ids.value_counts().reindex(data.items.index, fill_value=0)
 
             item_scores = super()._train_internal(counts)
